@@ -2,6 +2,7 @@
 import json
 import os
 
+from ..facts import AnalysisBroken
 from ..astq import walk, direct_writes, field_path, unwrap_casts, const_value
 from ..cases import CaseWalker
 from ..norm import render, render_stmt, Renderer, short_fn
@@ -148,42 +149,47 @@ def run(ctx):
     ctx.require(n_w >= 80, 'accumulator writers found: %d' % n_w)
     f = ctx.fn(I + 'SatAndSetAccAndFlag(RegName,unsigned long)')
     ctx.inst(A2)
-    t = render_stmt(f['body'], f, inline_locals=False)
-    want = '{(call Teakra::Interpreter::SetAccFlag on this $1) (if (! (. f:Teakra::Interpreter::regs %s::sata)) {(= $1 (call Teakra::Interpreter::SaturateAcc on this $1))}) (call Teakra::Interpreter::SetAcc on this $0 $1)}' % RS
-    if t != want:
-        ctx.report(A2, f, f['body'], 'SatAndSetAccAndFlag', 'flags are not derived from the unsaturated value before saturation-on-write: ' + t[:300])
+    from .. import summ, boolform
+    SATA = boolform.A('(. f:Teakra::Interpreter::regs %s::sata)' % RS)
+    FLAG = '(call Teakra::Interpreter::SetAccFlag on this $1)'
+    SATV = '(call Teakra::Interpreter::SaturateAcc on this $1)'
+    okp = True
+    seqs = summ.summary(ctx, f, asserts='ignore').effect_sequences(lambda e: e[0] == 'call')
+    for cond, seq, p_ in seqs:
+        names = [e[1] for e in seq]
+        sat_off = boolform.implies(cond, SATA) is True
+        sat_on = boolform.implies(cond, boolform.neg(SATA)) is True
+        stored = '(call Teakra::Interpreter::SetAcc on this $0 %s)' % (SATV if sat_on else '$1')
+        if not (sat_on or sat_off) or not names or names[0] != FLAG or names[-1] != stored \
+                or [n_ for n_ in names[1:-1] if n_ != SATV] or (sat_on and SATV not in names):
+            okp = False
+    if not okp or not seqs:
+        ctx.report(A2, f, f['body'], 'SatAndSetAccAndFlag', 'flags are not derived from the unsaturated value before saturation-on-write: '
+                   + str([(boolform.show(c)[-30:], [e[1][-50:] for e in sq]) for c, sq, p_ in seqs])[:300])
     f = ctx.fn(I + 'SetAccAndFlag(RegName,unsigned long)')
     ctx.inst(A2)
     if render_stmt(f['body'], f) != '{(call Teakra::Interpreter::SetAccFlag on this $1) (call Teakra::Interpreter::SetAcc on this $0 $1)}':
         ctx.report(A2, f, f['body'], 'SetAccAndFlag', 'is not SetAccFlag(value); SetAcc(name, value)')
     # ---- A3
     ex = ctx.fn(I + 'ExtendOperandForAlm(AlmOp,unsigned short)')
-    sw = [n for n in walk(ex['body']) if n.get('k') == 'switch']
-    ctx.require(len(sw) == 1, 'ExtendOperandForAlm: switch not found')
-    r = Renderer(ex)
-    kinds = {}
-    for arm in switch_arms(sw[0]):
-        rets = [r.r(n['e']) for st in arm['stmts'] for n in walk(st) if n.get('k') == 'return']
-        k = None
-        if rets == ['(call SignExtend<16U, unsigned long> $1)']:
-            k = 'sext16'
-        elif rets == ['(call SignExtend<32U, unsigned long> (<< $1 16))']:
-            k = 'high'
-        elif rets == ['$1']:
-            k = 'zext'
-        for l in arm['labels']:
-            kinds[l] = k or rets
-        if arm['default']:
-            kinds['default'] = k or rets
+    from .. import summ, boolform
+    rets = summ.summary(ctx, ex, asserts='ignore').returns()
+    KIND = {'(call SignExtend<16U, unsigned long> $1)': 'sext16', '(call SignExtend<32U, unsigned long> (<< $1 16))': 'high', '$1': 'zext'}
     WANT = {'Cmp': 'sext16', 'Sub': 'sext16', 'Add': 'sext16', 'Addh': 'high', 'Subh': 'high'}
     for op, v in almop.items():
         if op == 'Reserved':
             continue
         ctx.inst(A3)
-        got = kinds.get(v, kinds.get('default'))
+        got = []
+        for val, cond in rets.items():
+            t = boolform.eval_selector(cond, '$0', v, almop)
+            if t is None:
+                raise AnalysisBroken('C03: ExtendOperandForAlm selects on something other than the operation: ' + boolform.show(cond)[:160])
+            if t:
+                got.append(KIND.get(val, val))
         want = WANT.get(op, 'zext')
-        if got != want:
-            ctx.report(A3, ex, sw[0], 'ExtendOperandForAlm ' + op, '16-bit operand of %s is extended as %s, the operation defines %s' % (op, got, want))
+        if got != [want]:
+            ctx.report(A3, ex, ex['body'], 'ExtendOperandForAlm ' + op, '16-bit operand of %s is extended as %s, the operation defines %s' % (op, got, want))
     rf = ctx.fn(I + 'RegFromBus16(RegName,unsigned short)')
     rr = Renderer(rf)
     rn = {e['name']: e['v'] for e in ctx.F['enums']['RegName']['enumerators']}
